@@ -6,7 +6,7 @@ import CpModel.UrlEnc
     req  <qsenc> <qs-hex> <declared|N> <configured|N> <body-hex|N>
          whole request; declared = Content-Type charset, configured = request.body.attempt_charsets,
          body `N` = no body processed      → `H <params>` (handler called) | `S <code>`
-    pqs  <enc> <text>          httputil.parse_query_string      → `P <params>` | `E unicode` | `E value`
+    pqs  <enc> <text>          httputil.parse_query_string      → `P <params>` | `E unicode`
     purl <attempts> <hex>      process_urlencoded                → `P <params>` | `E 400`
     uqb  <hex>                 _cpreqbody.unquote_plus (bytes)   → `<hex>`
     uqt  <enc> <text>          urllib unquote_plus(strict)       → `T <text>` | `E`
@@ -14,7 +14,7 @@ import CpModel.UrlEnc
     rec  <hex>                 recode_path_qs on the query       → `T <text>`
     att  <declared|N> <configured|N>   attempt_charsets          → `A <charsets>`
 
-  charsets: utf8 latin1 ascii utf16 utf16le utf16be, lists joined by `,`.
+  charsets: utf8 latin1 ascii utf16 utf16le utf16be unknown, lists joined by `,`.
   text: decimal code points joined by `.`, `-` = empty.  params: `~` = empty dict, else entries
   `<key>:<val>` joined by `|`, val = `s<text>` | `i<nat>` | `l<atom>,<atom>…`, atom = `s<text>` | `i<nat>`.
 -/
@@ -26,11 +26,12 @@ def parseCs (s : String) : Option Charset :=
   if s == "utf8" then some .utf8 else if s == "latin1" then some .latin1
   else if s == "ascii" then some .ascii else if s == "utf16" then some .utf16
   else if s == "utf16le" then some .utf16le else if s == "utf16be" then some .utf16be
+  else if s == "unknown" then some .unknown
   else none
 
 def showCs : Charset → String
   | .utf8 => "utf8" | .latin1 => "latin1" | .ascii => "ascii"
-  | .utf16 => "utf16" | .utf16le => "utf16le" | .utf16be => "utf16be"
+  | .utf16 => "utf16" | .utf16le => "utf16le" | .utf16be => "utf16be" | .unknown => "unknown"
 
 def parseCsList (s : String) : Option (List Charset) :=
   if s == "-" then some [] else (s.splitOn ",").mapM parseCs
@@ -66,9 +67,8 @@ def step (line : String) : String :=
     match parseCs enc, Proto.untext? t with
     | some e, some s =>
       match parseQueryString (decode e) s with
-      | .ok p => "P " ++ showParams p
-      | .error .unicodeDecode => "E unicode"
-      | .error .valueError => "E value"
+      | some p => "P " ++ showParams p
+      | none => "E unicode"
     | _, _ => "bad-op"
   | ["purl", att, body] =>
     match parseCsList att, Proto.unhex? body with
